@@ -357,72 +357,36 @@ func (c *Ctx) rulePhaseConstructor() {
 var bodySetExceptions = map[string]string{
 	"core.jschemaToJAPIError":           "called with raw user types / enums whose body was required when their schema was created (buildUserTypes / buildRule test IsSet)",
 	"core.(*JApiCore).checkUserType":    "raw user types have a body (buildUserTypes returns BodyIsEmpty otherwise)",
-	"core.(*JApiCore).addRequest":       "the kit.Error branches are inside the switch cases that require d.BodyCoords.IsSet()",
-	"core.(*JApiCore).addJsonRpcSchema": "",
-	"core.(*JApiCore).addHeaders":       "",
-	"core.(*JApiCore).addQuery":         "",
 	"catalog.adoptErrorForResponseBody": "",
 }
 
 func (c *Ctx) bodySetEvidence(f *Fn, call *ast.CallExpr) bool {
-	pk := f.Pkg
-	cf := buildCFG(f.Decl.Body)
-	found := false
-	ast.Inspect(f.Decl.Body, func(n ast.Node) bool {
-		ifs, ok := n.(*ast.IfStmt)
+	sel, ok := ast.Unparen(call.Fun).(*ast.SelectorExpr)
+	if !ok {
+		return false
+	}
+	isSetM := c.P.LookupFunc("directive", "Coords.IsSet")
+	// "<the directive>.BodyCoords.IsSet()" holds at the call: tested in this function in whatever form (early return,
+	// enclosing if, case clause, predicate helper), or by every caller when the directive is a parameter
+	fact := func(g *Fn, cond ast.Expr, holds bool, subj ast.Expr) bool {
+		cl, ok := ast.Unparen(cond).(*ast.CallExpr)
+		if !ok || !holds || isSetM == nil || callee(g.Pkg, cl) != isSetM {
+			return false
+		}
+		cs, ok := ast.Unparen(cl.Fun).(*ast.SelectorExpr)
 		if !ok {
-			return true
+			return false
 		}
-		isSet := false
-		neg := false
-		ast.Inspect(ifs.Cond, func(m ast.Node) bool {
-			if cl, ok := m.(*ast.CallExpr); ok {
-				if sel, ok := ast.Unparen(cl.Fun).(*ast.SelectorExpr); ok && sel.Sel.Name == "IsSet" {
-					isSet = true
-				}
-			}
-			if u, ok := m.(*ast.UnaryExpr); ok && u.Op == token.NOT {
-				neg = true
-			}
-			return true
-		})
-		if !isSet {
-			return true
+		bc, ok := ast.Unparen(cs.X).(*ast.SelectorExpr)
+		if !ok || bc.Sel.Name != "BodyCoords" {
+			return false
 		}
-		if neg && len(ifs.Body.List) > 0 {
-			if _, isRet := ifs.Body.List[len(ifs.Body.List)-1].(*ast.ReturnStmt); isRet && cf.dominatedBy(call, ifs.Cond) {
-				found = true
-			}
-		}
-		if !neg && ifs.Body.Pos() <= call.Pos() && call.End() <= ifs.Body.End() {
-			found = true
-		}
-		return true
-	})
-	if found {
+		return exprString(stripRef(unalias(g, bc.X))) == exprString(stripRef(unalias(g, subj)))
+	}
+	if c.establishedUpward(f, call, sel.X, fact, 0) {
 		return true
 	}
-	// case clause conditions mentioning IsSet()
-	inspectWithStack(f.Decl.Body, func(n ast.Node, stack []ast.Node) bool {
-		if n != ast.Node(call) {
-			return true
-		}
-		for _, s := range stack {
-			if cc, ok := s.(*ast.CaseClause); ok {
-				for _, e := range cc.List {
-					if strings.Contains(exprString(e), "BodyCoords.IsSet()") && !strings.Contains(exprString(e), "!"+strings.TrimSpace("d.BodyCoords.IsSet()")) {
-						found = true
-					}
-				}
-			}
-		}
-		return true
-	})
-	if found {
-		return true
-	}
-	_, ok := bodySetExceptions[f.Name()]
-	_ = pk
+	_, ok = bodySetExceptions[f.Name()]
 	return ok
 }
 
